@@ -1,6 +1,8 @@
 /- Kernel obligation: entries 0x5000..0x5fff of the live float16->code table `Gen.encE4M3S` pass `encChk`
-   (one sixteenth of the table per file so that lake checks them in parallel; assembled in Proofs/C11_Tables.lean). -/
-import BitstringModel.Model.C11
+   (one sixteenth of the table per file so that lake checks them in parallel; depends only on the specification and on
+   this table; assembled in Proofs/C11_Tables.lean). -/
+import BitstringModel.Model.C11_Spec
+import BitstringModel.Gen.LutEncE4M3S
 namespace BM.C11
-theorem encChunk_E4M3S_05 : encChunkOk .e4m3s 5 = true := by decide +kernel
+theorem encChunk_E4M3S_05 : encChunkOkT Gen.encE4M3S Fmt.e4m3 .saturate 5 = true := by decide +kernel
 end BM.C11
